@@ -502,6 +502,7 @@ func runC16(env *Env) {
 		}
 	}
 	c16Engine(env, rep)
+	c16AcrossSubProcess(env, rep)
 	env.WriteCases(rep, "", "Corr.C16corr", "nat * gv * nat * cv", items, "c16_mismatches", "Open Scope Z_scope.")
 	env.WriteReport(rep)
 }
@@ -971,6 +972,157 @@ func c16Engine(env *Env, rep *Report) {
 			}
 		}
 		in.Close()
+	}
+}
+
+// values cross the boundary of an embedded sub-process in both directions: what a task outside stored is what a task
+// inside is given and what a condition inside routes on; what a task inside stored is readable from the instance, is
+// given to a task outside and routes a gateway behind the sub-process (one store per instance, however deep the nesting)
+func c16AcrossSubProcess(env *Env, rep *Report) {
+	var sitems []string
+	defer func() {
+		env.WriteCases(rep, "_scopes", "Corr.C16corr", "list (N * N * N * N)", sitems, "c16_scope_mismatches", "Open Scope N_scope.")
+	}()
+	ext := func(prop string, result string) string {
+		s := `<bpmn:extensionElements>`
+		if prop != "" {
+			s += `<olive:properties><olive:property name="` + prop + `" value="" type="integer"/></olive:properties>`
+		}
+		if result != "" {
+			s += `<olive:results><olive:field name="` + result + `" type="integer"/></olive:results>`
+		}
+		return s + `</bpmn:extensionElements>`
+	}
+	for depth := 1; depth <= 3 && !rep.Saturated(); depth++ {
+		for round := 0; round < 2; round++ {
+			cs := fmt.Sprintf("A stores ra outside, B inside %d level(s) of sub-process reads ra and stores rb, a gateway inside routes on ra, C and a gateway outside read rb (round %d)", depth, round)
+			env.Current(cs)
+			va, vb := int64(40+depth*10+round), int64(70+depth*10+round)
+			inner := &Prog{}
+			inner.Node("start", "is")
+			inner.Node("task", "B").Inner = ext("ra", "rb")
+			inner.Flow("is", "B", "")
+			g := inner.Node("xor", "IG")
+			inner.Flow("B", "IG", "")
+			inner.Node("task", "IY")
+			inner.Node("task", "IZ")
+			inner.Flow("IG", "IY", fmt.Sprintf("ra == %d", va))
+			g.Default = inner.Flow("IG", "IZ", "").ID
+			inner.Node("end", "ieY")
+			inner.Node("end", "ieZ")
+			inner.Flow("IY", "ieY", "")
+			inner.Flow("IZ", "ieZ", "")
+			body := inner
+			for l := 1; l < depth; l++ {
+				w := &Prog{}
+				w.Node("start", fmt.Sprintf("ws%d", l))
+				w.Node("sub", fmt.Sprintf("W%d", l)).Sub = body
+				w.Node("end", fmt.Sprintf("we%d", l))
+				w.Flow(fmt.Sprintf("ws%d", l), fmt.Sprintf("W%d", l), "")
+				w.Flow(fmt.Sprintf("W%d", l), fmt.Sprintf("we%d", l), "")
+				body = w
+			}
+			p := &Prog{}
+			p.Node("start", "start")
+			p.Node("task", "A").Inner = ext("", "ra")
+			p.Flow("start", "A", "")
+			p.Node("sub", "S").Sub = body
+			p.Flow("A", "S", "")
+			p.Node("task", "C").Inner = ext("rb", "")
+			p.Flow("S", "C", "")
+			og := p.Node("xor", "OG")
+			p.Flow("C", "OG", "")
+			p.Node("task", "OY")
+			p.Node("task", "OZ")
+			p.Flow("OG", "OY", fmt.Sprintf("rb == %d", vb))
+			og.Default = p.Flow("OG", "OZ", "").ID
+			p.Node("end", "oeY")
+			p.Node("end", "oeZ")
+			p.Flow("OY", "oeY", "")
+			p.Flow("OZ", "oeZ", "")
+			defs, err := ParseDefs(p.XML(""))
+			must(err)
+			in, err := StartInst(defs, InstOpt{Vars: map[string]any{"ra": 0, "rb": 0}})
+			must(err)
+			rep.Evaluations++
+			rep.Nontrivial++
+			rep.Count("engine_across_subprocess")
+			fail := func(msg string) {
+				rep.Violate("C16-engine", cs, msg+": "+logString(in.Log()))
+				in.Close()
+			}
+			if !in.Answer("A", tmoStep, bpmn.DoWithResults(map[string]any{"ra": va})) {
+				fail("A not requested")
+				continue
+			}
+			tb := in.WaitTask("B", tmoStep)
+			if tb == nil {
+				fail("B (inside the sub-process) not requested")
+				continue
+			}
+			// names: ra = 1, rb = 2; an unreadable value is written as 999
+			obs := func(v any, ok bool) int64 {
+				if !ok {
+					return 999
+				}
+				switch x := v.(type) {
+				case int64:
+					return x
+				case int:
+					return int64(x)
+				case float64:
+					return int64(x)
+				}
+				return 999
+			}
+			ops := []string{"(0,0,1,0)", "(0,0,2,0)", fmt.Sprintf("(0,0,1,%d)", va)}
+			if v, ok := tb.GetProperties()["ra"]; ok {
+				ops = append(ops, fmt.Sprintf("(1,%d,1,%d)", depth, obs(v.Value(), true)))
+			} else {
+				ops = append(ops, fmt.Sprintf("(1,%d,1,999)", depth))
+			}
+			if v, ok := tb.GetProperties()["ra"]; !ok || !c16Same(va, v.Value()) {
+				rep.Violate("C16-engine", cs, fmt.Sprintf("the task inside the sub-process is given ra = %v (present %v); A stored %d before the token entered", v, ok, va))
+			}
+			tb.Do(bpmn.DoWithResults(map[string]any{"rb": vb}))
+			if !in.WaitUntil(tmoStep, func(l []Ev) bool { return countEv(l, "task", "IY")+countEv(l, "task", "IZ") >= 1 }) {
+				fail("the gateway inside the sub-process routed the token nowhere")
+				continue
+			}
+			if countEv(in.Log(), "task", "IY") != 1 {
+				rep.Violate("C16-engine", cs, fmt.Sprintf("the condition ra == %d inside the sub-process did not see what A stored: %s", va, logString(in.Log())))
+			}
+			ops = append(ops, fmt.Sprintf("(0,%d,2,%d)", depth, vb))
+			{
+				v, ok := in.P.Locator().GetVariable("rb")
+				ops = append(ops, fmt.Sprintf("(1,0,2,%d)", obs(v, ok)))
+				sitems = append(sitems, "["+strings.Join(ops, ";")+"]")
+			}
+			if v, ok := in.P.Locator().GetVariable("rb"); !ok || !c16Same(vb, v) {
+				rep.Violate("C16-engine", cs, fmt.Sprintf("rb stored inside the sub-process reads back from the instance as %#v (present %v), stored %d", v, ok, vb))
+			}
+			if !in.Answer("IY", tmoStep) && !in.Answer("IZ", tmoStep) {
+				fail("neither task behind the inner gateway can be answered")
+				continue
+			}
+			tc := in.WaitTask("C", tmoStep)
+			if tc == nil {
+				fail("C (behind the sub-process) not requested")
+				continue
+			}
+			if v, ok := tc.GetProperties()["rb"]; !ok || !c16Same(vb, v.Value()) {
+				rep.Violate("C16-engine", cs, fmt.Sprintf("the task behind the sub-process is given rb = %v (present %v); B stored %d inside", v, ok, vb))
+			}
+			tc.Do()
+			if !in.WaitUntil(tmoStep, func(l []Ev) bool { return countEv(l, "task", "OY")+countEv(l, "task", "OZ") >= 1 }) {
+				fail("the gateway behind the sub-process routed the token nowhere")
+				continue
+			}
+			if countEv(in.Log(), "task", "OY") != 1 {
+				rep.Violate("C16-engine", cs, fmt.Sprintf("the condition rb == %d behind the sub-process did not see what B stored inside: %s", vb, logString(in.Log())))
+			}
+			in.Close()
+		}
 	}
 }
 
